@@ -819,6 +819,22 @@ class Canonicalizer:
                 stmts = getattr(blk, field, None)
                 if not isinstance(stmts, list):
                     continue
+                # `a, b = (e1, e2)` -> a = e1; b = e2   (no element reads an earlier target: the elements are evaluated in this order anyway)
+                for i, u in enumerate(stmts):
+                    if isinstance(u, ast.Assign) and len(u.targets) == 1 and isinstance(u.targets[0], (ast.Tuple, ast.List)) and isinstance(u.value, (ast.Tuple, ast.List)) \
+                            and len(u.targets[0].elts) == len(u.value.elts) >= 2 and all(isinstance(e, ast.Name) for e in u.targets[0].elts) \
+                            and not any(isinstance(e, ast.Starred) for e in u.value.elts):
+                        tn = [e.id for e in u.targets[0].elts]
+                        if len(set(tn)) != len(tn):
+                            continue
+                        if any({n.id for n in ast.walk(e) if isinstance(n, ast.Name)} & set(tn[:j]) for j, e in enumerate(u.value.elts)):
+                            continue
+                        if any(isinstance(e, ast.Call) for e in u.value.elts) is False:
+                            continue      # plain swaps / re-bindings of names are left as they are (rules read them as one statement)
+                        seq = [ast.copy_location(ast.Assign(targets=[ast.Name(id=t_, ctx=ast.Store())], value=e, lineno=u.lineno), u) for t_, e in zip(tn, u.value.elts)]
+                        stmts[i:i + 1] = seq
+                        self.notes.append(f"split a tuple assignment in {new.name}")
+                        return True
                 # `x, y, z = [f(t) for t in (a, b, c)]`  (list / generator / tuple(...) of one)  ->  x = f(a); y = f(b); z = f(c)
                 for i, u in enumerate(stmts):
                     if not (isinstance(u, ast.Assign) and len(u.targets) == 1 and isinstance(u.targets[0], (ast.Tuple, ast.List)) and all(isinstance(e, ast.Name) for e in u.targets[0].elts)):
@@ -1179,7 +1195,12 @@ class Canonicalizer:
                                 nxt = lst[i + 1]
                                 if isinstance(nxt, (ast.Assign, ast.Return, ast.Expr, ast.AugAssign)) and \
                                         any(isinstance(n, ast.Name) and n.id == x and isinstance(n.ctx, ast.Load) for n in ast.walk(nxt)):
-                                    single_use_call = True
+                                    # moving the call into the statement must not move it past another effectful evaluation of that statement: every call that is
+                                    # evaluated before the use (comes first in source order and does not contain the use) has to be pure
+                                    use = next(n for n in ast.walk(nxt) if isinstance(n, ast.Name) and n.id == x and isinstance(n.ctx, ast.Load))
+                                    upos = (use.lineno, use.col_offset)
+                                    earlier = [n for n in ast.walk(nxt) if isinstance(n, ast.Call) and (n.lineno, n.col_offset) < upos and not any(y is use for y in ast.walk(n))]
+                                    single_use_call = all(self._pure(n) for n in earlier)
                 if (self._pure(st.value) or single_use_literal or single_use_call) and self._stable(st.value, st, stores, params, new):
                     cands.append((x, st))
         if not cands:
